@@ -34,6 +34,8 @@ pub enum Ret {
     Bool,
     List,
     Binary,
+    /// returns the triggering frame itself (a record that looks like a frame)
+    EchoFrame,
 }
 
 #[derive(Serialize, Deserialize, Clone, Debug, PartialEq)]
@@ -105,7 +107,8 @@ pub enum SOp {
     Unreg { name: usize, ctx: usize },
     /// two registrations of the same (context, name) appended back to back, before the serve
     /// loop has reacted to the first
-    DoubleReg { name: usize, ctx: usize, first: HScript, second: HScript },
+    /// (second = None: the registration is followed at once by `<name>.unregister`)
+    DoubleReg { name: usize, ctx: usize, first: HScript, second: Option<HScript> },
     Trigger { ctx: usize, fail: bool, eph: bool, #[serde(default)] selfstop: bool },
     Burst { n: usize, ctx: usize, other_ctx: usize },
     Foreign { ctx: usize },
@@ -131,7 +134,8 @@ pub struct Plan {
     pub choices: Vec<String>,
 }
 
-const HNAMES: &[&str] = &["h0", "h1"];
+// the second name has the first one as a prefix
+const HNAMES: &[&str] = &["h0", "h0x"];
 const GNAMES: &[&str] = &["g0", "g1"];
 const CNAMES: &[&str] = &["c0", "c1"];
 
@@ -210,6 +214,7 @@ pub fn handler_script(name: &str, s: &HScript, other_ctx: &str, after_id: Option
         Ret::Bool => "    true\n",
         Ret::List => "    [$env.n $frame.id]\n",
         Ret::Binary => "    0x[01 02 ff]\n",
+        Ret::EchoFrame => "    $frame\n",
     });
     out.push_str("  }\n}\n");
     out
@@ -245,7 +250,7 @@ fn ret_literal(r: &Ret, i: usize) -> (String, serde_json::Value) {
         Ret::List => (format!("[{} \"z\"]", i), serde_json::json!([i, "z"])),
         Ret::Record => (format!("{{k: {}, leak: $leak}}", i), serde_json::json!({"k": i, "leak": 1})),
         Ret::Binary => ("0x[aa]".to_string(), serde_json::Value::Null),
-        Ret::Nothing => ("null".to_string(), serde_json::Value::Null),
+        Ret::Nothing | Ret::EchoFrame => ("null".to_string(), serde_json::Value::Null),
     }
 }
 
@@ -330,6 +335,8 @@ struct Instance {
     /// index in the log of the register frame
     reg_pos: usize,
     valid: bool,
+    /// the id a `resume_from: <id>` script was given
+    after: Option<Scru128Id>,
 }
 
 struct Run {
@@ -555,7 +562,9 @@ impl Run {
                 let other = self.ctx(ctx + 1);
                 let after = match script.resume {
                     Resume::After(k) => {
-                        let inctx: Vec<&Frame> = self.log.iter().filter(|f| f.context_id == c && f.ttl != Some(TTL::Ephemeral)).collect();
+                        // every other cursor may also be the id of an ephemeral frame: a cursor
+                        // whose frame is not (or no longer) in the store
+                        let inctx: Vec<&Frame> = self.log.iter().filter(|f| f.context_id == c && (k % 2 == 1 || f.ttl != Some(TTL::Ephemeral))).collect();
                         if inctx.is_empty() {
                             None
                         } else {
@@ -575,6 +584,7 @@ impl Run {
                     script: script.clone(),
                     reg_pos: self.log.len(),
                     valid,
+                    after,
                 });
                 if valid {
                     self.active.insert((c, n.to_string()), f.id);
@@ -593,14 +603,24 @@ impl Run {
                 let c = self.ctx(*ctx);
                 let n = HNAMES[name % HNAMES.len()];
                 let other = self.ctx(ctx + 1);
-                for script in [first, second] {
+                let mut scripts = vec![first];
+                if let Some(s2) = second {
+                    scripts.push(s2);
+                }
+                for script in scripts {
                     let text = handler_script(n, script, &other.to_string(), None);
                     let hash = Some(self.cas(&text)?);
                     let f = self.op_append(Frame::builder(format!("{}.register", n), c).maybe_hash(hash).build())?;
-                    self.instances.push(Instance { id: f.id, name: n.to_string(), ctx: c, script: script.clone(), reg_pos: self.log.len(), valid: true });
+                    self.instances.push(Instance { id: f.id, name: n.to_string(), ctx: c, script: script.clone(), reg_pos: self.log.len(), valid: true, after: None });
                     self.active.insert((c, n.to_string()), f.id);
                 }
-                self.w.probe("handler:double-register");
+                if second.is_none() {
+                    self.op_append(Frame::builder(format!("{}.unregister", n), c).build())?;
+                    self.active.remove(&(c, n.to_string()));
+                    self.w.probe("handler:register-then-unregister");
+                } else {
+                    self.w.probe("handler:double-register");
+                }
                 self.quiesce(chooser, vec![])?;
             }
             SOp::Unreg { name, ctx } => {
@@ -624,9 +644,16 @@ impl Run {
                         }
                     }
                 }
+                let mut tmeta = serde_json::json!({"fail": fail, "op": i, "selfstop": selfstop});
+                if self.plan.prop == "C15" && i % 2 == 0 {
+                    // a trigger that carries some other producer's stamp (as the output of
+                    // another handler would)
+                    tmeta["handler_id"] = serde_json::json!(ZERO_CONTEXT.to_string());
+                    self.w.probe("trigger:foreign-stamp");
+                }
                 let f = self.op_append(
                     Frame::builder(format!("trig.{}", i), c)
-                        .meta(serde_json::json!({"fail": fail, "op": i, "selfstop": selfstop}))
+                        .meta(tmeta)
                         .maybe_ttl(if *eph { Some(TTL::Ephemeral) } else { None })
                         .build(),
                 )?;
@@ -906,6 +933,23 @@ impl Run {
             }
             let reg_pos = pos_of[&registered[0].id];
             let stop_pos = unregistered.first().map(|u| pos_of[&u.id]);
+            // a stop needs a reason: a later register / unregister of exactly its own name in its
+            // own context, or an error raised by one of its invocations
+            if let Some(u) = unregistered.first() {
+                let cited = Self::meta_str(u, "frame_id").and_then(|t| log.iter().find(|f| f.id.to_string() == t));
+                let has_error = Self::meta_str(u, "error").is_some();
+                let ok = match cited {
+                    Some(c) if has_error => c.context_id == inst.ctx,
+                    Some(c) => c.context_id == inst.ctx && c.id > inst.id && (c.topic == format!("{}.register", name) || c.topic == format!("{}.unregister", name)),
+                    None => false,
+                };
+                if !ok {
+                    return violation(
+                        "lifecycle/spurious-stop",
+                        format!("{} announced its stop ({}) citing {}, which is neither a later register / unregister of its own name in its context nor a failing invocation", desc, fmt_frame(u), cited.map(fmt_frame).unwrap_or_else(|| "no frame".into())),
+                    );
+                }
+            }
             // every frame this instance produced
             let outputs: Vec<(usize, &Frame)> = log
                 .iter()
@@ -1043,6 +1087,14 @@ impl Run {
                                 v.get(0).and_then(|x| x.as_i64())
                             }
                             Ret::Binary => None,
+                            Ret::EchoFrame => {
+                                // the triggering frame, rendered as a record - also when that
+                                // frame carries some other handler's stamp
+                                if v.get("id").and_then(|x| x.as_str()) != Some(tid.as_str()) || v.get("topic").and_then(|x| x.as_str()) != Some(trig.topic.as_str()) {
+                                    return violation("output/content", format!("{}: returned the triggering frame {} but the return frame carries {}", desc, fmt_frame(trig), text));
+                                }
+                                None
+                            }
                             Ret::Nothing => None,
                         };
                         if let Some(n) = n_val {
@@ -1096,8 +1148,21 @@ impl Run {
                     continue;
                 }
                 let Some(&tp) = pos_of.get(&tid) else { continue };
+                // where its subscription starts: head, after the given id, or at its registration
+                let scope_lo = match inst.script.resume {
+                    Resume::Tail => reg_pos + 1,
+                    Resume::Head => 0,
+                    Resume::After(_) => match inst.after {
+                        Some(a) => log.iter().position(|f| f.id > a).unwrap_or(log.len()),
+                        None => 0,
+                    },
+                };
                 if tp <= reg_pos {
-                    continue;
+                    // a historical trigger: replayed to head / after-id handlers if it is stored
+                    if tp < scope_lo || tp >= rpos || log[tp].ttl == Some(TTL::Ephemeral) {
+                        continue;
+                    }
+                    self.w.probe("dispatch:historical-trigger-checked");
                 }
                 if let Some(sp) = stop_pos {
                     if tp > sp {
@@ -1110,11 +1175,11 @@ impl Run {
                     }
                 }
                 // was it stopped by something before this trigger? (a later register/unregister of its name)
-                let stopper = log[rpos + 1..tp].iter().any(|f| f.context_id == inst.ctx && (f.topic == format!("{}.register", name) || f.topic == format!("{}.unregister", name)));
+                let stopper = tp > rpos && log[rpos + 1..tp].iter().any(|f| f.context_id == inst.ctx && (f.topic == format!("{}.register", name) || f.topic == format!("{}.unregister", name)));
                 if stopper {
                     continue;
                 }
-                let earlier_fail = self.triggers.iter().any(|(oid, oc, of)| *oc == inst.ctx && *of && inst.script.fail_at.is_some() && pos_of.get(oid).map(|p| *p > reg_pos && *p < tp).unwrap_or(false));
+                let earlier_fail = self.triggers.iter().any(|(oid, oc, of)| *oc == inst.ctx && *of && inst.script.fail_at.is_some() && pos_of.get(oid).map(|p| *p >= scope_lo.min(reg_pos + 1) && *p < tp && log[*p].ttl != Some(TTL::Ephemeral) || *p > reg_pos && *p < tp).unwrap_or(false));
                 if earlier_fail {
                     continue;
                 }
@@ -1245,6 +1310,7 @@ impl Run {
             _ => None,
         }
     }
+
 
     /// Runs with restarts: per incarnation of the serve loop, an instance is invoked at most once
     /// per frame of its context and never for what it emitted itself - also when the replay after
@@ -1756,7 +1822,7 @@ fn gen_hscript(rng: &mut Rng, prop: &str) -> HScript {
         ));
     }
     let ret = match prop {
-        "C15" => match rng.weighted(&[12, 30, 12, 12, 8, 8, 10, 8]) {
+        "C15" => match rng.weighted(&[12, 30, 12, 12, 8, 8, 10, 8, 10]) {
             0 => Ret::Nothing,
             1 => Ret::Record,
             2 => Ret::Str,
@@ -1764,7 +1830,8 @@ fn gen_hscript(rng: &mut Rng, prop: &str) -> HScript {
             4 => Ret::Float,
             5 => Ret::Bool,
             6 => Ret::List,
-            _ => Ret::Binary,
+            7 => Ret::Binary,
+            _ => Ret::EchoFrame,
         },
         _ => match rng.weighted(&[70, 15, 15]) {
             0 => Ret::Record,
@@ -1939,7 +2006,8 @@ pub fn generate(seed: u64, prop: &str, thorough: bool) -> Plan {
                             x.ret = Ret::Record;
                         }
                     }
-                    SOp::DoubleReg { name: rng.below(2), ctx: rng.below(nctx + 1), first: a, second: b }
+                    let second = if rng.chance(35) { None } else { Some(b) };
+                    SOp::DoubleReg { name: rng.below(2), ctx: rng.below(nctx + 1), first: a, second }
                 } else {
                     SOp::Unreg { name: rng.below(2), ctx: rng.below(nctx + 1) }
                 }
